@@ -71,5 +71,6 @@ def decode(b, tables_root=None, extra_B=None, extra_D=None, inline_sequences=Fal
     return dict(frame=fr, edition=fr.edition, total=fr.total, nsub=nsub, comp=comp, ids=ids,
                 subsets=subsets_from_walkers(walkers, comp, nsub), end=fr.end,
                 stop=fr.sections[5][2][0][1], padding_bits=pad, padding_value=padbits,
+                nbs=(walkers[0].nbs if comp and walkers else None),
                 noncanon=any(getattr(w, 'noncanon_unit_under_op', False) for w in walkers),
                 ops=set().union(*[w.ops_seen for w in walkers]) if walkers else set())
